@@ -2,7 +2,7 @@
    Only statements, closed by `exact`, and their assumptions.  The facts in Generated/OrderKey.v are re-read from
    /repo (meta_row.py, queries.py, data/ddl.sql, loaders/*.py, meta_table.py, sge_utils.py) on every run. *)
 From Coq Require Import Permutation.
-From VV Require Import Model.Base Model.Views Model.Unique Model.Order Generated.OrderKey Proofs.OrderProofs.
+From VV Require Import Model.Base Model.Views Model.Unique Model.Order Model.ParseList Generated.OrderKey Proofs.OrderProofs Proofs.ParseListProofs.
 
 (* a stable sort by a total preorder gives the same list for every arrival order of the rows, provided rows that
    compare equal are equal *)
@@ -41,6 +41,19 @@ Proof. exact (fun payload rows rows' => meta_order_total meta_order_key payload 
 Theorem C12_sort_dedup_canonical : forall l l', (forall x, In x l <-> In x l') -> sort_dedup l = sort_dedup l'.
 Proof. exact sort_dedup_canonical. Qed.
 
+(* the items of a vector written with any blanks around them (and empty pieces in between) are read back exactly, so the
+   parsed mutator codes / sgRNA ids depend only on which items are written, not on order, repetition or spacing *)
+Theorem C12_parse_list_spacing : forall (ws : list (nat * string * nat)),
+  ws <> [] -> forallb (fun x => clean (snd (fst x))) ws = true ->
+  parse_list (join_comma (map written ws)) = map (fun x => snd (fst x)) ws.
+Proof. exact parse_list_spacing. Qed.
+Theorem C12_parse_mutators_canonical : forall ws ws',
+  ws <> [] -> ws' <> [] ->
+  forallb (fun x => clean (snd (fst x))) ws = true -> forallb (fun x => clean (snd (fst x))) ws' = true ->
+  (forall s, In s (map (fun x => snd (fst x)) ws) <-> In s (map (fun x => snd (fst x)) ws')) ->
+  sort_dedup (parse_list (join_comma (map written ws))) = sort_dedup (parse_list (join_comma (map written ws'))).
+Proof. exact parse_mutators_canonical. Qed.
+
 (* the places that rely on it are still written that way in the source *)
 Theorem C12_sources_ordered :
   parse_mutators_sorted_set = true /\ parse_list_strips = true /\ targeton_name_sorted_ids = true /\
@@ -75,6 +88,8 @@ Print Assumptions C12_meta_order_total.
 Print Assumptions C12_order_key_covers_identity.
 Print Assumptions C12_meta_rows_deterministic.
 Print Assumptions C12_sort_dedup_canonical.
+Print Assumptions C12_parse_list_spacing.
+Print Assumptions C12_parse_mutators_canonical.
 Print Assumptions C12_sources_ordered.
 Print Assumptions C12_unique_name_order_free.
 Print Assumptions C12_softmask_invariant.
